@@ -146,6 +146,9 @@ Step ==
             /\ store' = Empty /\ cfg' = cfg /\ insOnly' = FALSE
             /\ viol' = viol \cup (IF t.res = "ok" THEN {} ELSE {<<l, "RtErr">>}) \cup FullViol(t, Empty, FALSE)
                             \cup (IF t.full = 1 /\ (t.st.tomb # 0 \/ Len(t.st.ep) # 0) THEN {<<l, "RtStale">>} ELSE {})
+       [] t.ev = "recall" ->       \* C07 clause 2, a measurement: mean recall@k over the queries must exceed 0.8
+            /\ UNCHANGED <<store, cfg, insOnly>>
+            /\ viol' = viol \cup (IF 10 * t.hits > 8 * t.queries * t.k THEN {} ELSE {<<l, "RecallFloor">>})
        [] t.ev = "loading" ->      \* marker written before each stream load (see the harness)
             UNCHANGED <<store, cfg, insOnly, viol>>
        [] t.ev = "stream" ->
